@@ -402,7 +402,14 @@ def evaluate_payload_template(input, context, template):
             if AWS supports JSON object/list, if so that's make this much
             more complex and computationally expensive
             """
-            return args[1] in input_array
+            # Compare booleans by identity, "in" alone conflates true with 1
+            # and false with 0 as bool is a subclass of int in Python.
+            def same_value(a, b):
+                if isinstance(a, bool) or isinstance(b, bool):
+                    return a is b
+                return a == b
+
+            return any(same_value(args[1], item) for item in input_array)
 
         def asl_intrinsic_ArrayRange(args):
             if len(args) != 3:
